@@ -1,7 +1,7 @@
 (* C20 — Reported progress is a proper weighted fraction.  Property theorems only. *)
 From Coq Require Import ZArith List Bool Reals Lia.
 Import ListNotations.
-Require Import V.Weights.Model V.Weights.Proofs V.Weights.FloatTie.
+Require Import V.Weights.Model V.Weights.Proofs V.Weights.Malformed V.Weights.Stages V.Weights.FloatTie.
 Require Import V.Weights.RSum V.Weights.FloatModel V.Weights.FloatSum.
 Open Scope Z_scope.
 
@@ -57,6 +57,83 @@ Theorem C20_progress : forall (D : Z) (ws prog : list Z),
   0 <= total ws prog <= D * sumZ ws /\ total ws (repeat D (length ws)) = D * sumZ ws.
 Proof. intros D ws prog HD Hw Hp Hl. split; [exact (total_bounds D ws prog HD Hw Hp Hl)|exact (total_complete D ws)]. Qed.
 Print Assumptions C20_progress.
+
+(* ---- MALFORMED weights ("every assignment of given, missing or malformed stage weights").
+   An entry is a number, missing, a text (numeric or not), nan/inf, or an object float() refuses
+   (Model.wt).  used c given = the weights StatusMonitor finally uses after the workflow was loaded
+   through FlowIR.inject_default_values (None: the load raised), in units 1/(1000*c*n).
+   For every scale c >= 1, every n >= 1 and EVERY assignment of entries:
+   the load raises exactly when an entry is an object float() refuses (None, list, mapping); otherwise the
+   weights in use have one entry per stage, are non-negative and sum to one (1000*c*n units); they are
+   - the given numbers (numbers, missing = 0, numeric texts) when those are non-negative and sum to one and
+     no entry is an unparsable text,
+   - the monitor's OWN equal weights 1/n when the numbers are non-negative and sum to one but an
+     unparsable text (counted 0.0 by the load and left in the loaded FlowIR) is among the entries,
+   - the explicit defaults of C20_default_path otherwise (also for nan / inf). *)
+Theorem C20_malformed_weights : forall (c : Z) (given : list wt),
+  1 <= c -> (1 <= length given)%nat ->
+  (used c given = None <-> existsb is_bad given = true) /\
+  (forall u, used c given = Some u ->
+     length u = length given /\ Forall (fun m => 0 <= m) u /\ sumZ u = 1000 * c * Z.of_nat (length given)) /\
+  used c given =
+    (if existsb is_bad given then None
+     else if inj_accepts c given
+          then if existsb is_unparsable given then Some (repeat (1000 * c) (length given))
+               else Some (map (Z.mul (Z.of_nat (length given))) (values given))
+          else Some (map (Z.mul (Z.of_nat (length given))) (map (Z.mul c) (fallback (length given))))) /\
+  (forall ms, existsb is_bad given = false -> existsb is_unparsable given = false ->
+     all_some (map inj_value given) = Some ms -> Forall (fun m => 0 <= m) ms -> sumZ ms = 1000 * c ->
+     used c given = Some (map (Z.mul (Z.of_nat (length given))) ms)).
+Proof.
+  intros c given Hc Hn. split; [exact (used_none_iff c given)|].
+  split; [intros u Hu; exact (used_good c given u Hc Hu)|].
+  split; [exact (used_spec c given Hc Hn)|].
+  intros ms Hb Hu Hv Hp Hs. exact (used_keeps c given ms Hc Hn Hb Hu Hv Hp Hs).
+Qed.
+Print Assumptions C20_malformed_weights.
+
+(* The status monitor alone, on ANY entries it may find in the status-report of the loaded FlowIR
+   (also one set after loading): the weights it uses have one entry per stage, are non-negative and
+   sum to one; non-negative numbers summing to one are used as they are. *)
+Theorem C20_monitor_weights : forall (c : Z) (ws : list wt),
+  1 <= c ->
+  length (mon_used c ws) = length ws /\ Forall (fun m => 0 <= m) (mon_used c ws) /\
+  sumZ (mon_used c ws) = 1000 * c * Z.of_nat (length ws) /\
+  (forall ms, ws = map WNum ms -> Forall (fun m => 0 <= m) ms -> sumZ ms = 1000 * c ->
+     mon_used c ws = map (Z.mul (Z.of_nat (length ms))) ms).
+Proof.
+  intros c ws Hc. split; [exact (mon_used_length c ws)|]. split; [exact (mon_used_nonneg c ws ltac:(lia))|].
+  split; [exact (mon_used_sum c ws)|]. intros ms -> Hp Hs. exact (mon_used_numbers c ms Hp Hs).
+Qed.
+Print Assumptions C20_monitor_weights.
+
+(* On numbers the malformed model IS the model of C20_weights: the loaded status-report holds normalise. *)
+Theorem C20_weights_numbers : forall (c : Z) (ms : list Z),
+  inject c (map WNum ms) = Some (map WNum (normalise c ms)).
+Proof. exact inject_numbers. Qed.
+Print Assumptions C20_weights_numbers.
+
+(* Total progress with the weights in use, whatever the entries were: in [0,1] and one when complete. *)
+Theorem C20_used_progress : forall (c : Z) (ws : list wt) (D : Z) (prog : list Z),
+  1 <= c -> 0 <= D -> Forall (fun a => 0 <= a <= D) prog -> length prog = length ws ->
+  0 <= total (mon_used c ws) prog <= D * (1000 * c * Z.of_nat (length ws)) /\
+  total (mon_used c ws) (repeat D (length ws)) = D * (1000 * c * Z.of_nat (length ws)).
+Proof. exact used_progress. Qed.
+Print Assumptions C20_used_progress.
+
+(* Which stages the report counts (Controller.get_stages_finished / get_stages_in_transit): for ANY set of
+   nodes - also after nodes were added to stages that had finished (iterations of a DoWhile) - no stage is
+   both finished and in transit, and every known stage is in exactly one of the two lists: each stage
+   weight enters the sum of CheckStatus at most once, so C20_progress bounds the report by one. *)
+Theorem C20_stage_lists : forall (stages : list Z) (nodes : list (Z * bool)) (s : Z),
+  (In s (stages_finished stages nodes) -> ~ In s (stages_in_transit nodes)) /\
+  (In s stages ->
+   (In s (stages_finished stages nodes) /\ ~ In s (stages_in_transit nodes)) \/
+   (~ In s (stages_finished stages nodes) /\ In s (stages_in_transit nodes))).
+Proof.
+  intros stages nodes s. split; [exact (finished_not_in_transit stages nodes s)|exact (known_stage_counted_once stages nodes s)].
+Qed.
+Print Assumptions C20_stage_lists.
 
 (* Tie to IEEE-754 doubles (bounded sweeps, bounds in the statement). *)
 Theorem C20_float_tie :
@@ -118,12 +195,24 @@ Print Assumptions C20_float_constants.
 
 (* non-vacuity: a 3-stage package giving 0.2/0.3/0.5 meets every hypothesis, is kept, a
    7-stage package giving nothing gets 6 x 0.142 + 0.148, four- and ten-decimal weights summing to one
-   are kept; the float theorems' hypotheses are met by FloatSum.float_nonvacuous *)
+   are kept, malformed entries meet the hypotheses of C20_malformed_weights; the float theorems' hypotheses are met by FloatSum.float_nonvacuous *)
 Example C20_nonvacuous :
   normalise 10 [2000; 3000; 5000] = [2000; 3000; 5000] /\
   normalise 10 [0;0;0;0;0;0;0] = [1420;1420;1420;1420;1420;1420;1480] /\
   normalise 10 [15000; -5000] = [5000; 5000] /\
   normalise 10 [3333; 6667] = [3333; 6667] /\ normalise 10 [3335; 6675] = [5000; 5000] /\
   normalise 10000000 [3333333333; 6666666667] = [3333333333; 6666666667] /\
-  total [2000; 3000; 5000] [4;2;0] = 14000.
+  total [2000; 3000; 5000] [4;2;0] = 14000 /\
+  (* malformed: 'n/a' + 0.4 + 0.6 stays in the loaded FlowIR, the monitor uses 1/3 each (units 1/30000) *)
+  inject 10 [WText None; WNum 4000; WNum 6000] = Some [WText None; WNum 4000; WNum 6000] /\
+  used 10 [WText None; WNum 4000; WNum 6000] = Some [10000; 10000; 10000] /\
+  used 10 [WText (Some 4000); WMissing; WNum 6000] = Some [12000; 0; 18000] /\
+  used 10 [WNan; WNum 4000; WNum 6000] = Some [9990; 9990; 10020] /\
+  used 10 [WBad; WNum 10000] = None /\
+  mon_used 10 [WMissing; WNum 5000] = [10000; 10000] /\
+  total (mon_used 10 [WText None; WNum 4000; WNum 6000]) [8; 8; 8] = 8 * 30000 /\
+  (* stage 2 had finished, then an iteration of a DoWhile added an active node to it *)
+  stages_finished [0; 1; 2; 3] [(0, false); (1, false); (2, false); (3, true)] = [0; 1; 2] /\
+  stages_finished [0; 1; 2; 3] [(0, false); (1, false); (2, false); (3, false); (1, true); (2, true); (3, true)] = [0] /\
+  stages_in_transit [(0, false); (1, false); (2, false); (3, false); (1, true); (2, true); (3, true)] = [1; 2; 3].
 Proof. repeat split; reflexivity. Qed.
